@@ -88,6 +88,11 @@ type Deviations struct {
 	ExactRangeRepeatedVariableCrossJoinsNodes bool
 	// WithDropsOrderSkipLimit: ORDER BY, SKIP and LIMIT of a WITH clause are not emitted.
 	WithDropsOrderSkipLimit bool
+	// ListConcatenationReadsNullAsEmpty: null + list (and list + null) yield the list instead of null.
+	ListConcatenationReadsNullAsEmpty bool
+	// LeadingOptionalMatchYieldsNoRow: a query that starts with OPTIONAL MATCH and matches nothing yields no row
+	// instead of one row of nulls.
+	LeadingOptionalMatchYieldsNoRow bool
 	// ArithmeticAndSumCoerceProperty: a property operand of + - * / % and the argument of sum()/avg() are read as text
 	// and cast to a number.
 	ArithmeticAndSumCoerceProperty bool
@@ -583,6 +588,14 @@ func (e *Evaluator) arithmetic(a *cypher.ArithmeticExpression, env Env) (any, er
 			}
 		}
 		accExpr = nil
+		if e.Dev.ListConcatenationReadsNullAsEmpty && p.Operator == cypher.OperatorAdd {
+			if _, isList := r.([]any); isList && acc == nil {
+				acc = []any{}
+			}
+			if _, isList := acc.([]any); isList && r == nil {
+				r = []any{}
+			}
+		}
 		acc, err = arith(p.Operator, acc, r)
 		if err != nil {
 			return nil, err
